@@ -52,7 +52,45 @@ def grads_of(rr):
     return out
 
 
+def lowprec_stream(ctx):
+    """second-order data in bfloat16: gradients are then accurate to ~1e-2 only, but they still must not depend on the
+    placement — every strategy performs the same arithmetic in the same precision (placements compared with each other only)"""
+    rng = ctx.rng
+    for b in range(ctx.budget(3, 24)):
+        base = kfacsim.Config(rng, world=rng.choice([2, 4]), method=rng.choice(['inverse', 'inverse', 'eigen']), prediv=False)
+        base.inv16, base.cap_mb, base.fac32, base.keepgrad = True, 0.0, False, False
+        base.hyper['kl_clip'] = None
+        base.hyper['inv_update_steps'] = 1
+        base.ops = (['f1'] * base.accum + ['s']) * rng.randrange(2, 4)
+        vs = []
+        for k in gen.divisors(base.world):
+            v = copy.copy(base)
+            v.k, v.colocate = k, True
+            vs.append(v)
+        runs = []
+        for j, v in enumerate(vs):
+            rr = kfacsim.run_real(v, sched_seed=ctx.seed * 77 + b * 10 + j)
+            if kfacsim.run_failed(rr):
+                ctx.fail(f'run failed: {kfacsim.run_failed(rr)}', v.describe(), 'run-failed')
+                break
+            runs.append((v, grads_of(rr)))
+        else:
+            g0 = runs[0][1]
+            for v, g in runs:
+                bad = [(si, r, l, kfacsim.relerr(g[si][r][l], g0[si][0][l])) for si in range(len(g0)) for r in range(v.world)
+                       for l in range(len(g0[si][0])) if kfacsim.relerr(g[si][r][l], g0[si][0][l]) > 1e-6]
+                if bad:
+                    si, r, l, e = bad[0]
+                    ctx.fail(f'bfloat16 second-order data: step {si}, layer {l}, rank {r} with {v.k} gradient workers differs by {e:.2e} '
+                             f'from rank 0 with {vs[0].k}', dict(v.describe(), base_k=vs[0].k), 'placement-dependent-lowprec')
+                    break
+        ctx.evaluations += 1
+        ctx.case(('lowprec', str(base.describe())), nontrivial=True)
+        ctx.count('lowprec-placements')
+
+
 def run(ctx):
+    lowprec_stream(ctx)
     rng = ctx.rng
     nbase = ctx.budget(14, 120)
     for b in range(nbase):
@@ -69,12 +107,17 @@ def run(ctx):
             base.hyper['inv_update_steps'] = rng.choice([2, 3])
             ks = [k for k in range(2, base.world + 1) if base.world % k == 0]
             base.k = rng.choice(ks)
+        if b % 4 == 1:
+            # directed corner: a factor interval that neither divides nor is divided by the inverse interval, different data
+            # per rank: every factor update is all-reduced before the next decomposition uses it
+            base.hyper['factor_update_steps'], base.hyper['inv_update_steps'] = rng.choice([(2, 3), (2, 5), (3, 4)])
+            directed = True
         if b % 4 == 2:
             # directed corner: explicit inverses of float32 factors (the dtype the inversion runs in), refreshed every step
             base.method, base.prediv, base.fac32 = 'inverse', False, True
             base.hyper['inv_update_steps'] = 1
             directed = True
-        for _ in range(rng.randrange(4 if directed else 2, ctx.budget(6, 9))):
+        for _ in range(rng.randrange((7 if b % 4 == 1 else 4) if directed else 2, ctx.budget(9 if b % 4 == 1 else 6, 10))):
             base.ops += ['f1'] * base.accum + ['s']
             if rng.random() < 0.2:
                 base.ops.append('f0')
